@@ -352,6 +352,13 @@ func (e *syncEngine) methodCallsOn(fi *core.FuncInfo) []string {
 			continue
 		}
 		sig := callee.Type().(*types.Signature)
+		if sig.Recv() == nil && !callee.Exported() && sig.Results().Len() == 1 && core.IsModType(sig.Results().At(0).Type(), "Spec") {
+			// an unexported constructor (literal + allocation): what it calls on the new analyzer comes first
+			if g := e.c.P.Funcs[callee]; g != nil && g != fi {
+				out = append(out, e.methodCallsOn(g)...)
+			}
+			continue
+		}
 		if sig.Recv() == nil || !core.IsModType(sig.Recv().Type(), "Spec") {
 			continue
 		}
@@ -370,6 +377,10 @@ func (e *syncEngine) flatMethodCallsOn(fi *core.FuncInfo) []string {
 			continue
 		}
 		sig := callee.Type().(*types.Signature)
+		if sig.Recv() == nil && !callee.Exported() && sig.Results().Len() == 1 && core.IsModType(sig.Results().At(0).Type(), "Spec") && g != fi {
+			out = append(out, e.methodCallsOn(g)...)
+			continue
+		}
 		if sig.Recv() == nil || !core.IsModType(sig.Recv().Type(), "Spec") {
 			continue
 		}
